@@ -32,6 +32,7 @@ from __future__ import annotations
 
 from typing import TYPE_CHECKING
 
+from numpy import newaxis
 from numpy import sqrt
 from numpy import tile
 from sklearn.decomposition import PCA as SKLPCA
@@ -82,15 +83,36 @@ class PCA(BaseDimensionReduction):
     @BaseDimensionReduction._use_2d_array
     def compute_jacobian(self, data: RealArray) -> RealArray:  # noqa: D102
         return tile(
-            self.algo.components_, (len(data), 1, 1)
+            self.__get_projection_matrix(False), (len(data), 1, 1)
         ) @ self.__scaler.compute_jacobian(data)
 
     @BaseDimensionReduction._use_2d_array
     def compute_jacobian_inverse(self, data: RealArray) -> RealArray:  # noqa: D102
         data_ = self.algo.inverse_transform(data)
         return self.__scaler.compute_jacobian_inverse(data_) @ tile(
-            self.algo.components_.T, (len(data), 1, 1)
+            self.__get_projection_matrix(True).T, (len(data), 1, 1)
         )
+
+    def __get_projection_matrix(self, inverse: bool) -> RealArray:
+        """Return the matrix of the linear part of the (inverse) transformation.
+
+        Args:
+            inverse: Whether to consider the inverse transformation.
+
+        Returns:
+            The principal axes,
+            scaled by the standard deviations of the components
+            when the option ``whiten`` of the scikit-learn PCA is ``True``.
+        """
+        components = self.algo.components_
+        if not self.algo.whiten:
+            return components
+
+        standard_deviations = sqrt(self.algo.explained_variance_)[:, newaxis]
+        if inverse:
+            return components * standard_deviations
+
+        return components / standard_deviations
 
     @property
     def components(self) -> RealArray:
